@@ -56,7 +56,8 @@ Fixpoint shape {S R} (s : cstmt S R) : sstmt :=
   end.
 
 (* ---------------------------------------------------------------- the interpreter *)
-(* k: what follows the statement list; brk: where `break` goes.  Loops re-enter with less fuel. *)
+(* k: what follows the statement list; brk / cnt: where `break` / `continue` go.  Only loops use fuel:
+   one unit per iteration of `for { }` and of a counted loop (a range loop is bounded by its list). *)
 Section Exec.
   Context {S R : Type}.
   Variable crash : N -> R.
@@ -75,43 +76,50 @@ Section Exec.
     match fuel with
     | O => nofuel
     | Datatypes.S f =>
-        (fix go (l : list (cstmt S R)) (σ : S) (k brk cnt : S -> R) {struct l} : R :=
+        let gos :=
+          fix gos (s : cstmt S R) (σ : S) (next brk cnt : S -> R) {struct s} : R :=
+            let gol :=
+              fix gol (l : list (cstmt S R)) (σ : S) (k brk cnt : S -> R) {struct l} : R :=
+                match l with
+                | [] => k σ
+                | x :: t => gos x σ (fun σ' => gol t σ' k brk cnt) brk cnt
+                end in
+            match s with
+            | CSet _ fn => match fn σ with POk σ' => next σ' | PPanic w => crash w end
+            | CEff _ fn => fn σ next
+            | CIf _ c th el =>
+                match c σ with
+                | POk true => gol th σ next brk cnt
+                | POk false => gol el σ next brk cnt
+                | PPanic w => crash w
+                end
+            | CLoop body =>
+                exec f (body ++ [CLoop body]) σ next next (fun σ' => exec f [CLoop body] σ' next next next)
+            | CFor t ini cond post body =>
+                let σ0 := ini σ in
+                if cond σ0
+                then exec f (body ++ [CFor t post cond post body]) σ0 next next
+                          (fun σ' => exec f [CFor t post cond post body] σ' next next next)
+                else next σ0
+            | CRangeN _ over bnd body =>
+                match over σ with
+                | PPanic w => crash w
+                | POk xs => iter (fun σ i x again => gol body (bnd σ i x) again next again) next xs 0%Z σ
+                end
+            | CRangeZ _ over bnd body =>
+                match over σ with
+                | PPanic w => crash w
+                | POk xs => iter (fun σ i x again => gol body (bnd σ i x) again next again) next xs 0%Z σ
+                end
+            | CBreak => brk σ
+            | CContinue => cnt σ
+            | CReturn _ r => r σ
+            | CPanic _ w => crash w
+            end in
+        (fix gol (l : list (cstmt S R)) (σ : S) (k brk cnt : S -> R) {struct l} : R :=
            match l with
            | [] => k σ
-           | s :: rest =>
-               let next := fun σ' => go rest σ' k brk cnt in
-               match s with
-               | CSet _ fn => match fn σ with POk σ' => next σ' | PPanic w => crash w end
-               | CEff _ fn => fn σ next
-               | CIf _ c th el =>
-                   match c σ with
-                   | POk true => exec f (th ++ rest) σ k brk cnt
-                   | POk false => exec f (el ++ rest) σ k brk cnt
-                   | PPanic w => crash w
-                   end
-               | CLoop body =>
-                   exec f (body ++ [CLoop body]) σ next next (fun σ' => exec f [CLoop body] σ' next next next)
-               | CFor t ini cond post body =>
-                   let σ0 := ini σ in
-                   if cond σ0
-                   then exec f (body ++ [CFor t post cond post body]) σ0 next next
-                             (fun σ' => exec f [CFor t post cond post body] σ' next next next)
-                   else next σ0
-               | CRangeN _ over bnd body =>
-                   match over σ with
-                   | PPanic w => crash w
-                   | POk xs => iter (fun σ i x again => exec f body (bnd σ i x) again next again) next xs 0%Z σ
-                   end
-               | CRangeZ _ over bnd body =>
-                   match over σ with
-                   | PPanic w => crash w
-                   | POk xs => iter (fun σ i x again => exec f body (bnd σ i x) again next again) next xs 0%Z σ
-                   end
-               | CBreak => brk σ
-               | CContinue => cnt σ
-               | CReturn _ r => r σ
-               | CPanic _ w => crash w
-               end
+           | x :: t => gos x σ (fun σ' => gol t σ' k brk cnt) brk cnt
            end) l σ k brk cnt
     end.
 End Exec.
